@@ -139,3 +139,45 @@ def c12_lognormal_nonpositive(v):
     return (not fin(sc.get('plain'))) and (not fin(sc.get('plain:s1'))) \
         and str(sc.get('nan_padding')) not in ('nan', 'inf') \
         and sc.get('nan_padding') == sc.get('nan_padding:s1')
+
+
+def c10_explicit_protocol_overlap(v):
+    """
+    PKPDModel.set_dosing_regimen(myokit.Protocol) hands the protocol to the
+    simulator unchanged, and a myokit protocol applies one dose rate at a
+    time: an event that starts while another one is active deactivates the
+    older one for good.  With overlapping events less drug is delivered than
+    the protocol schedules (and than the regimen table lists).  Attributed
+    only to explicit protocols with overlapping events in the cumulative-input
+    monitor, and only when the observed input equals what this pre-emption
+    rule delivers; any other amount is a new violation.
+    """
+    f = v.get('features', {})
+    if f.get('regimen') != 'protocol_overlap':
+        return False
+    if v['mechanism'] != 'cumulative_input_mismatch:protocol_overlap':
+        return False
+    d = v.get('detail', {})
+    try:
+        ev = sorted((float(s), float(dd), float(a))
+                    for s, dd, a in d['events'])
+        probes = [float(t) for t in d['probes']]
+        obs = [float(x) for x in d['observed_all']]
+    except (KeyError, TypeError, ValueError):
+        return False
+
+    def delivered(t):
+        total = 0.0
+        for i, (s, dd, a) in enumerate(ev):
+            end = s + dd
+            # deactivated by the next event that starts while it is active
+            for s2, _, _ in ev[i + 1:]:
+                if s < s2 < end:
+                    end = s2
+                    break
+            total += a / dd * min(max(t - s, 0.0), end - s)
+        return total
+    want = [delivered(t) - delivered(probes[0]) for t in probes]
+    got = [x - obs[0] for x in obs]
+    scale = 1.0 + max(abs(w) for w in want)
+    return all(abs(g - w) <= 1e-5 * scale for g, w in zip(got, want))
